@@ -162,6 +162,8 @@ def replay_record(rec):
                 okm = kind == "none"
             elif mach in (["#item"], ["#py"]):
                 okm = kind == "item"
+            elif mach == ["#py?"]:
+                okm = kind in ("item", "err")
             else:
                 try:
                     mv = A.eval_tree(mach, nums, fn1, fn2)
